@@ -54,9 +54,16 @@ def batch(cfg, raw, tfc):
 def run_schedule(cfg, raw, tfc, preload, calc_first, comp, on_step=None):
     """Indicator pre-loaded with raw[:preload] (optionally calculated), then raw[preload:] appended
     in chunks of sizes comp. on_step(ind, consumed) is called after construction and every append."""
-    ind = make(cfg, candles=fresh(raw[:preload]), **host_kw(tfc))
-    if calc_first:
-        ind.calculate()
+    if calc_first == "restart":
+        # a first instance calculates the pre-load; a second instance of the same configuration is then created over the
+        # very same (already calculated) candle objects and takes over the stream - a strategy restart
+        first = make(cfg, candles=fresh(raw[:preload]), **host_kw(tfc))
+        first.calculate()
+        ind = make(cfg, candles=first.candles, **host_kw(tfc))
+    else:
+        ind = make(cfg, candles=fresh(raw[:preload]), **host_kw(tfc))
+        if calc_first:
+            ind.calculate()
     pos = preload
     if on_step:
         on_step(ind, pos)
